@@ -240,6 +240,11 @@ def _hypothesis_search(prop: Prop, tier: str, seed: int, n_examples: int, stats:
         return
     state = {'best': None, 'best_digest': None, 'best_out': None, 'deadline': None}
     budget = prop.shrink_budget_s[tier]
+    try:  # Hypothesis' shrinker has a hard 5 min cap; lower it to this tier's budget
+        import hypothesis.internal.conjecture.engine as _eng
+        _eng.MAX_SHRINKING_SECONDS = budget
+    except Exception:
+        pass
 
     @hypothesis.seed(seed)
     @settings(
@@ -255,14 +260,14 @@ def _hypothesis_search(prop: Prop, tier: str, seed: int, n_examples: int, stats:
     @given(strat)
     def test(case):
         shrinking = state['best'] is not None
+        d = digest(case)
+        if shrinking and time.time() > state['deadline'] and d != state['best_digest']:
+            return  # shrink budget exhausted: only the best-known failing case still fails
         bad = _run_one(prop, case, stats if not shrinking else Stats(), 'gen', open_keys)
         if bad is None:
             return
-        d = digest(case)
         if state['deadline'] is None:
             state['deadline'] = time.time() + budget
-        elif time.time() > state['deadline'] and d != state['best_digest']:
-            return  # shrink budget exhausted: accept only the best-known failing case
         state['best'], state['best_digest'], state['best_out'] = case, d, bad
         raise _Violation(bad.msg)
 
